@@ -78,6 +78,7 @@ def cfgs_random(prop, tier, rng):
         if rng.random() < 0.3:
             c['a'] = [-3.0 + d for d in range(D)]
             c['b'] = [6.0 + 2 * d for d in range(D)]
+            c['int_domain'] = rng.random() < 0.5
         c['name'] = 'random-config %d' % i
         out.append((c, rng.randint(3, 6) if D == 2 else rng.randint(2, 4)))
     return out
